@@ -24,8 +24,11 @@ import (
 	"errors"
 	"fmt"
 	"reflect"
+	"runtime"
+	"runtime/debug"
 	"sort"
 	"strings"
+	"time"
 
 	"evylang.dev/evy/pkg/bytecode"
 	"evylang.dev/evy/pkg/evaluator"
@@ -681,14 +684,33 @@ type c17runObs struct {
 	panicv  string // Go panic out of Run
 	finalSP int
 	ranOK   bool
+	cutWhy  string
 }
 
 type c17cutRun struct{}
 
 func c17runVM(bc *bytecode.Bytecode, limit int) (o c17runObs) {
+	// Endless loops are cut after `limit` steps; loops that double a value
+	// each time round (v = v + v) are cut by a heap / wall-clock guard before
+	// they exhaust the machine. A cut run is a prefix of a legitimate run.
+	start := time.Now()
+	var ms runtime.MemStats
+	n := 0
 	bytecode.VerifStep = func(ip int, op byte, sp int) {
 		if len(o.steps) >= limit {
 			panic(c17cutRun{})
+		}
+		n++
+		if n%8 == 0 {
+			runtime.ReadMemStats(&ms)
+			if ms.HeapAlloc > 256<<20 {
+				o.cutWhy = "heap"
+				panic(c17cutRun{})
+			}
+			if n%256 == 0 && time.Since(start) > 5*time.Second {
+				o.cutWhy = "time"
+				panic(c17cutRun{})
+			}
 		}
 		o.steps = append(o.steps, c17step{ip, int(op), sp})
 	}
@@ -717,6 +739,10 @@ func c17runVM(bc *bytecode.Bytecode, limit int) (o c17runObs) {
 	}()
 	if vm != nil {
 		o.finalSP = vm.VerifSP()
+	}
+	if o.cutWhy == "heap" {
+		vm = nil
+		debug.FreeOSMemory()
 	}
 	return o
 }
@@ -843,6 +869,7 @@ func stageC17Compile(raw json.RawMessage) Result {
 func c17fillRunObs(obs map[string]any, ro c17runObs) {
 	obs["steps"] = len(ro.steps)
 	obs["cut"] = ro.cut
+	obs["cut_why"] = ro.cutWhy
 	obs["run_err"] = ro.err
 	obs["run_panic"] = ro.panicv
 	obs["final_sp"] = ro.finalSP
